@@ -88,7 +88,11 @@ def formatDefault (k : KType) (dflt : List Nat) (optional : Bool) : Except GenEr
   | .int8 | .int16 | .int32 | .int64 | .uint16 | .uint32 | .uint64 =>
     (match parseInt dflt with | some i => .ok (.int i) | none => .error .notImplemented)
   | .bool => (match parseBool dflt with | some b => .ok (.bool b) | none => .error .assertion)
-  | .float64 => (match parseFloatBits dflt with | some b => .ok (.float b) | none => .error .notImplemented)
+  | .float64 =>
+    -- the default text is pasted as a Python literal: an integer spelling yields an `int`
+    (match parseInt dflt with
+     | some i => .ok (.int i)
+     | none => match parseFloatBits dflt with | some b => .ok (.float b) | none => .error .notImplemented)
   | .errorCode => (match parseInt dflt with | some i => .ok (.int i) | none => .error .notImplemented)
   | .timedeltaI32 | .timedeltaI64 =>
     (match parseInt dflt with | some i => .ok (.timedelta (i * 1000)) | none => .error .notImplemented)
